@@ -246,6 +246,36 @@ def check_snapshots(ctx, ms):
                                                    or isinstance(lp.iter, (ast.Set, ast.BinOp)))
             stale = {}
             sn = inf['snap']
+            # `for x in [<comprehension over the structure>]` written with a temporary: the list is built right before the loop, in the same
+            # block, and used for nothing but this loop - the same single evaluation the comprehension in the iterator position is
+            own_snapshot = False
+            if lv and isinstance(lp, ast.For) and isinstance(lp.iter, ast.Name):
+                tname = lp.iter.id
+                uses_ = [x for x in walk_local(fn) if isinstance(x, ast.Name) and x.id == tname]
+                blk = None
+                par_ = getattr(lp, '_parent', None)
+                for fld_ in ('body', 'orelse', 'finalbody'):
+                    if par_ is not None and lp in (getattr(par_, fld_, None) or []):
+                        blk = getattr(par_, fld_)
+                if blk is None and par_ is not None and isinstance(par_, ast.ExceptHandler) and lp in par_.body:
+                    blk = par_.body
+                if blk is not None:
+                    before = blk[:blk.index(lp)]
+                    ok_all = True
+                    for x in uses_:
+                        if x is lp.iter:
+                            continue
+                        p_ = getattr(x, '_parent', None)
+                        top = x
+                        while getattr(top, '_parent', None) is not None and top not in blk:
+                            top = top._parent
+                        if top not in before:
+                            ok_all = False
+                        elif isinstance(x.ctx, ast.Store):
+                            ok_all = ok_all and isinstance(p_, ast.Assign) and ((isinstance(p_.value, ast.List) and not p_.value.elts) or isinstance(p_.value, (ast.ListComp, ast.SetComp)))
+                        else:
+                            ok_all = ok_all and isinstance(p_, ast.Attribute) and p_.attr in ('append', 'add')
+                    own_snapshot = ok_all and len(uses_) >= 2
             for st in lp.body + lp.orelse:
                 for x in ast.walk(st):
                     if not (isinstance(x, ast.Name) and isinstance(x.ctx, ast.Load) and x.id != 'self') or x.id in _comp_bound(x):
@@ -259,6 +289,8 @@ def check_snapshots(ctx, ms):
                             continue
                         if lv and distinct and x.id == lv and all(isinstance(k, ast.Name) and k.id == lv for k in written[f]):
                             continue    # the loop's own variable over distinct elements, every update keyed by it: earlier iterations touched other keys
+                        if own_snapshot and x.id == lv:
+                            continue
                         n_uses += 1
                         # per-key independence exemption
                         par = getattr(x, '_parent', None)
@@ -295,7 +327,9 @@ def run(ctx):
         ctx.rule(rid, text)
     t = src.tree(MONITOR)
     cls = get_class(t, 'PolicyDirectoryMonitor')
-    ms = methods(cls)
+    from ..inline import flat_methods
+    ms, absorbed_helpers = flat_methods(cls)        # helpers extracted from scan_policies & co. are read in place
+    ms = dict(ms)
 
     # ---------------- R1 + R4: update sites per method
     update_sites = []   # (method, node, struct, kind, key_expr)
@@ -596,7 +630,8 @@ def run(ctx):
     ctx.check(not bad and not bad2 and bool(in_loop), 'C18.R3', 'PolicyDirectoryMonitor.scan_policies|parse-before-update', '%s:%s PolicyDirectoryMonitor.scan_policies' % (MONITOR, rc.lineno),
               'all %d per-file updates are dominated by the normal completion of read_policy_from_file' % (len(in_loop) + len(calls_in_loop)),
               'policy structures can be updated for a file whose parse did not complete normally (lines %s)' % sorted(set(bad + bad2)))
-    okt = bool(rn.tries) and any(handler_catches(h) == ['ValueError'] and any(isinstance(s, ast.Continue) for s in h.body) for h in rn.tries[-1].handlers)
+    # the ValueError arm swallows the error (no re-raise); that nothing of the file is applied afterwards is bad2 above
+    okt = bool(rn.tries) and any(handler_catches(h) == ['ValueError'] and not any(isinstance(x_, ast.Raise) for s in h.body for x_ in ast.walk(s)) for h in rn.tries[-1].handlers)
     ctx.check(okt, 'C18.R3', 'PolicyDirectoryMonitor.scan_policies|invalid-file-skipped', '%s:%s PolicyDirectoryMonitor.scan_policies' % (MONITOR, rc.lineno),
               'ValueError from the parser skips the file', 'a parser ValueError is not caught-and-skipped per file')
 
@@ -615,8 +650,10 @@ def run(ctx):
         pn, pc = pushes[0]
         tup = pc.args[0] if pc.args else None
         ok5 = isinstance(tup, ast.Tuple) and U(pc.func.value) in ('self.policy_cache.get(%s)' % kname, 'self.policy_cache[%s]' % kname)
+        from ..dataflow import resolve as _resolve
         if ok5:
             for i, e in enumerate(tup.elts):
+                e, _en = _resolve(rd, pn, e)          # `owner = self.policy_map.get(p)` hoisted into a local is the same value
                 if U(e) in ('self.policy_map.get(%s)' % kname, 'self.policy_map[%s]' % kname):
                     pos_map = i
                 if U(e) in ('self.policy_store.get(%s)' % kname, 'self.policy_store[%s]' % kname):
@@ -627,7 +664,9 @@ def run(ctx):
             differs = exists = False
             for tt, lab in dominating_edges(g, pn):
                 p = cmp_parts(tt.stmt)
-                if p and p[1] == 'NotEq' and lab == 'T' and {U(p[0]), U(p[2])} == {fvar, 'self.policy_map.get(%s)' % kname}:
+                if p:
+                    p = (_resolve(rd, tt, p[0])[0], p[1], _resolve(rd, tt, p[2])[0])
+                if p and p[1] == 'NotEq' and lab == 'T' and {U(p[0]), U(p[2])} in ({fvar, 'self.policy_map.get(%s)' % kname}, {fvar, 'self.policy_map[%s]' % kname}):
                     differs = True
                     dt = tt
                 if p and p[1] == 'In' and lab == 'T' and isinstance(p[0], ast.Name) and p[0].id == kname and 'policy_store' in U(p[2]):
@@ -697,7 +736,7 @@ def run(ctx):
                             srcs = []
                     t_ = False
                     for s_ in srcs:
-                        if isinstance(s_, ast.Call) and call_name(s_) == 'json.loads':
+                        if isinstance(s_, ast.Call) and call_name(s_) in ('json.loads', 'json.load'):
                             t_ = True
                         for x in ast.walk(s_):
                             if isinstance(x, ast.Name) and x.id in tainted:
@@ -709,7 +748,7 @@ def run(ctx):
                     if isinstance(val, tuple) and val[0] == 'unpack':
                         inner = val[1]
                         if isinstance(inner, tuple) and inner[0] == 'iter':
-                            t_ = any(isinstance(x, ast.Name) and x.id in tainted for x in ast.walk(inner[1])) or (isinstance(inner[1], ast.Call) and call_name(inner[1]) == 'json.loads')
+                            t_ = any(isinstance(x, ast.Name) and x.id in tainted for x in ast.walk(inner[1])) or (isinstance(inner[1], ast.Call) and call_name(inner[1]) in ('json.loads', 'json.load'))
                             if val[2] == 0:
                                 if t_ and var not in keyvars:
                                     keyvars.add(var)
